@@ -2,8 +2,8 @@
     real DB (background compaction paused, flushes gated) through writes,
     rotations, flushes, chosen compactions and reopen, and records what every
     read returned and what the layout looked like; the model replays the trace. *)
-From Coq Require Export List NArith Bool String.
-From NoKV Require Export Base.Bytes Model.Lsm Spec.MvccSpec Spec.LsmSpec Spec.LsmInvB Corr.Common.
+From Coq Require Export List NArith ZArith Bool String.
+From NoKV Require Export Base.Bytes Model.Lsm Model.Targets Spec.MvccSpec Spec.LsmSpec Spec.LsmInvB Corr.Common.
 Export ListNotations.
 Local Open Scope N_scope.
 
@@ -18,7 +18,10 @@ Inductive xop :=
 | XGetPlain (k : bytes) (o : option bytes)                  (* GetCF *)
 | XSame (k : bytes) (v : N) (before after : option (bytes * N))  (* the same read before Close and after Open *)
 | XCommit (r : rec)                                          (* a transaction committed one write; r_ver = its commit ts *)
-| XLayout (imms : list N) (l0 : list N) (lvls : list (list (list N) * list N)).
+| XLayout (imms : list N) (l0 : list N) (lvls : list (list (list N) * list N))
+| XTargets (sizes : list N) (opts : list N) (base : N) (target file : list N).
+    (* compact.BuildTargets on these level sizes and options (base level size, level multiplier,
+       base table size, table multiplier, memtable size) returned this base level and these lists *)
 
 Record case := { c_memid : N; c_now : N; c_ops : list xop }.
 
@@ -70,6 +73,12 @@ Definition set_memid (s : state) (m : N) : state :=
 Record acc := { a_st : state; a_ws : list rec; a_mis : bool; a_vio : bool; a_known : N; a_next : N;
   a_broken : bool;  (* some state of the run violated the recency order of equal internal keys ([tier_inv_b]) *)
   a_struct : bool   (* some state had an unsorted source, overlapping main tables ([src_b] false) or a cross-tier recency inversion ([cross_b] false): never a known class *) }.
+
+Definition topt_of (l : list N) : topt :=
+  {| o_base_level_size := Z.of_N (nth 0 l 0); o_level_mult := Z.of_N (nth 1 l 0); o_base_table := Z.of_N (nth 2 l 0);
+     o_table_mult := Z.of_N (nth 3 l 0); o_memtable := Z.of_N (nth 4 l 0) |}.
+Definition zlist_eqb (a : list Z) (b : list N) : bool :=
+  if list_eq_dec Z.eq_dec a (map Z.of_N b) then true else false.
 
 Definition classify (spec model : option rec) (obs : option (bytes * N)) : N :=
   (* a violation the faithful model reproduces: 1 = an older write of the same
@@ -127,6 +136,14 @@ Definition step (now : N) (a : acc) (o : xop) : acc :=
          a_mis := a_mis a || negb (r_ver r =? a_next a);
          a_vio := a_vio a || stale;
          a_known := if stale then 999 else a_known a; a_next := r_ver r + 1; a_broken := a_broken a; a_struct := a_struct a |}
+  | XTargets sizes opts base target file =>
+      let zs := map Z.of_N sizes in
+      let t := build_targets zs (topt_of opts) in
+      let agree := (N.of_nat (t_base t) =? base) && zlist_eqb (t_target t) target && zlist_eqb (t_file t) file in
+      (* specification: an L0 move to the base level must not pass a level that holds data *)
+      let bad := negb (base_above_data zs (N.to_nat base)) in
+      {| a_st := s; a_ws := a_ws a; a_mis := a_mis a || negb agree; a_vio := a_vio a || bad;
+         a_known := if bad then 999 else a_known a; a_next := a_next a; a_broken := a_broken a; a_struct := a_struct a |}
   | XLayout imms l0 lvls =>
       let ok := nlist_eqb (map fst (st_imms s)) imms && nlist_eqb (fids (st_l0 s)) l0 &&
                 (Nat.eqb (List.length (st_lvls s)) (List.length lvls)) &&
